@@ -1,6 +1,7 @@
 import RQ.Driver.Proto
 import RQ.Spec.Abs
 import RQ.Model.Args
+import RQ.Spec.Backups
 /-! Engine `W`: whole `push` invocations -/
 namespace RQ.PushEngine
 open RQ RQ.Proto RQ.Push
@@ -143,6 +144,37 @@ def absVerdict (fs0 : FS) (invs impl : List String) : String := Id.run do
     fs := parseTree (fieldOf r "tree")
   return "ok"
 
+/-- executable check of the statement of `RQ.Abs.C08_backup_is_prestate` on the generated workspace -/
+def c08Statement (fs0 : FS) (invs impl : List String) : String := Id.run do
+  let mut fs := fs0
+  for (a, r) in invs.zip impl do
+    let inv := parseArgs (if a == "-" then [] else a.splitOn " ") ()
+    match plan inv.cfg fs with
+    | .apply range =>
+      if !inv.cfg.dryRun then
+        match applyLoop fs inv.cfg range 0 {} with
+        | .ok (st, k, _) =>
+          let downTo := match inv.cfg.backupCount with | none => 0 | some n => if k > n then k - n else 0
+          match Abs.backupCalls st.mem st.applied downTo with
+          | .error _ => return "FAIL:calls-error"
+          | .ok (calls, _) =>
+            for (j, _, name, _) in calls do
+              match Abs.lastCall j name calls with
+              | none => return "FAIL:no-last"
+              | some f =>
+                if !(downTo ≤ j && j < k) then return "FAIL:window"
+                match Abs.applyRange fs inv.cfg (range.take j) 0 [] with
+                | .ok (t, j', _) =>
+                  if j' != j then return "FAIL:count"
+                  match Abs.look t fs name with
+                  | .ok af => if af != Abs.absOf f then return "FAIL:state"
+                  | .error _ => return "FAIL:look"
+                | .error _ => return "FAIL:range"
+        | .error _ => pure ()
+    | _ => pure ()
+    fs := parseTree (fieldOf r "tree")
+  return "ok"
+
 /-- C19 on the implementation: nothing outside the working directory appeared, vanished or changed -/
 def c19 (impl : List String) : String :=
   if impl.all (fun r => fieldOf r "outside" == "ok") then "ok" else "FAIL:touched-outside"
@@ -160,7 +192,7 @@ def step (fields : List String) : String :=
     let eqs := (m.zip impl).map (fun (a, b) => dropSame a == dropSame b)
     let firstBad := (eqs.zipIdx.find? (fun (e, _) => !e)).map (·.2)
     let ok := m.length == impl.length && eqs.all (fun b => b)
-    s!"{cid} eq={boolS ok} firstbad={optNatS firstBad} SPEC={specVerdict (parseTree tree) invs impl} ABS={absVerdict (parseTree tree) invs impl} C10={c10 invs impl} C15={c15 impl} C19={c19 impl} C11={c11 impl} model={"|".intercalate m}"
+    s!"{cid} eq={boolS ok} firstbad={optNatS firstBad} SPEC={specVerdict (parseTree tree) invs impl} ABS={absVerdict (parseTree tree) invs impl} C08S={c08Statement (parseTree tree) invs impl} C10={c10 invs impl} C15={c15 impl} C19={c19 impl} C11={c11 impl} model={"|".intercalate m}"
   | _ => "bad-line"
 
 end RQ.PushEngine
